@@ -3,6 +3,7 @@ package rules
 import (
 	"fmt"
 	"go/types"
+	"morlockverif/checker/internal/core"
 	"strings"
 
 	"golang.org/x/tools/go/ssa"
@@ -291,12 +292,31 @@ func (m *searchModel) isHelper(fn *ssa.Function) bool {
 	if fn == m.push || fn == m.pop || fn == m.adjudicate || fn == m.isCancelled {
 		return false
 	}
-	r1, r2 := fn.Signature.Recv(), m.self.Signature.Recv()
-	if r1 == nil || r2 == nil || fn.Pkg != m.self.Pkg {
+	if fn.Pkg == nil || fn.Pkg != m.self.Pkg || fn.Parent() != nil {
 		return false
 	}
-	if !types.Identical(r1.Type(), r2.Type()) {
-		return false
+	r1, r2 := fn.Signature.Recv(), m.self.Signature.Recv()
+	sameRecv := r1 != nil && r2 != nil && types.Identical(r1.Type(), r2.Type())
+	if !sameRecv {
+		// a plain function (or a method of another type) of the same package: only small, loop-free,
+		// non-search code is analysed inline (e.g. a helper computing the window from the context)
+		if r1 != nil && (m.implements(r1.Type(), m.searchIface) || m.implements(r1.Type(), m.quietIface) || m.implements(r1.Type(), m.ttIface)) {
+			return false
+		}
+		for _, b := range fn.Blocks {
+			for _, sc := range b.Succs {
+				if sc.Dominates(b) {
+					return false // loop
+				}
+			}
+			for _, ins := range b.Instrs {
+				if call, ok := ins.(ssa.CallInstruction); ok {
+					if f := call.Common().StaticCallee(); f == m.push || f == m.pop {
+						return false
+					}
+				}
+			}
+		}
 	}
 	// it must not (transitively, within helpers) be recursive
 	return !m.reaches(fn, fn, map[*ssa.Function]bool{})
@@ -360,7 +380,7 @@ func (m *searchModel) helpersOf(fn *ssa.Function) []*ssa.Function {
 // the first two Score-typed parameters are (alpha, beta), the int parameter is the depth.
 func scoreParams(fn *ssa.Function) (alpha, beta, depth string) {
 	for _, p := range fn.Params {
-		if n := namedOf(p.Type()); n != nil && n.Obj().Name() == "Score" {
+		if n := namedOf(p.Type()); n != nil && core.ObjName(n.Obj()) == "Score" {
 			if alpha == "" {
 				alpha = p.Name()
 			} else if beta == "" {
